@@ -258,7 +258,7 @@ from . import trace as _trace
 
 def call(f, *a, **k):
     if _trace.TR is not None:
-        _trace.method_call(f)
+        _trace.method_call(f, a)
     if _ex._CUR is not None:
         try:
             m = MODELS.get(f)
